@@ -207,6 +207,12 @@ class Judge:
                     self.ctx.viol(f"{cellkind}:reference-resolved-from-trigger-question-not-from-calculated-node",
                                   f"${{{name}}} in {cellkind} of {owner_entry.path} became {got!r}: correct relative to the trigger question {alt_ctx[0]} but not relative to {ctxp}, the node the cell belongs to (setvalue/@ref)", self.wit(cell=cellkind))
                 continue
+            ir_arg = _indexed_repeat_arg(source, pos)
+            if ir_arg in (0, 1, 3, 5) and not got.startswith("/"):
+                # the node name and the repeat of each level are absolute by design (the function itself walks down from the root)
+                self.ctx.viol(f"{cellkind}:indexed-repeat-argument-not-absolute:arg{ir_arg}", f"${{{name}}} as argument #{ir_arg + 1} of indexed-repeat() in {cellkind} of {owner_entry.path} became the relative path {got!r}",
+                              self.wit(cell=cellkind))
+                continue
             if got.startswith("/"):
                 if got != t.path:
                     self.ctx.viol(f"{cellkind}:absolute-wrong-node:{sig_rel}", f"${{{name}}} in {cellkind} of {owner_entry.path} became {got!r}; the node is {t.path!r}", self.wit(cell=cellkind))
@@ -278,6 +284,14 @@ def _in_indexed_repeat(source, pos):
         if m.start() <= pos < m.end():
             return True
     return False
+
+
+def _indexed_repeat_arg(source, pos):
+    """Position (0-based) of the argument of an indexed-repeat() call that holds the reference at `pos`, or None."""
+    for m in re.finditer(r"indexed-repeat\(([^)]*)\)", source):
+        if m.start() <= pos < m.end():
+            return source[m.start(1):pos].count(",")
+    return None
 
 
 def _relation(owner, t):
